@@ -32,8 +32,20 @@ def one(name):
 
 def main():
     names = sorted(p.name for p in (VERIF / "seeded").iterdir() if (p / "patch.diff").exists())
+    todo = names
+    old = {}
+    if len(sys.argv) > 2:
+        # `seeded_matrix.py <workers> new`  : only the changes that have no row yet (or whose row is an error); rows are merged
+        # `seeded_matrix.py <workers> <substring> …` : only matching names
+        old = json.loads((VERIF / "seeded" / "MATRIX.json").read_text())
+        if sys.argv[2] == "new":
+            todo = [n for n in names if n not in old or "error" in old[n]]
+        else:
+            todo = [n for n in names if any(a in n for a in sys.argv[2:])]
     with ThreadPoolExecutor(max_workers=int(sys.argv[1]) if len(sys.argv) > 1 else 5) as ex:
-        res = dict(ex.map(one, names))
+        res = dict(ex.map(one, todo))
+    res = {n: res.get(n, old.get(n)) for n in names if n in res or n in old}
+    names = [n for n in names if n in res]
     (VERIF / "seeded" / "MATRIX.json").write_text(json.dumps(res, indent=1))
     lines = ["# Which quick check reports which seeded change (F = violation with a failing input, n = violation without failing input, . = passes)", "",
              "| seeded change | " + " | ".join(p[1:] for p in PROPS) + " |", "|---|" + "---|" * len(PROPS)]
